@@ -6,7 +6,7 @@
 
 pub use crate::bus::{AccessCode, Bus, Device};
 pub use crate::cpu::{AddrMode, Cpu, Data, Instruction, Operand};
-pub use crate::dmd::verif_global_duart_snapshot;
+pub use crate::dmd::{verif_global_duart_snapshot, verif_global_fresh};
 pub use crate::dmd::Dmd;
 pub use crate::duart::Duart;
 pub use crate::err::{BusError, CpuError, CpuException};
